@@ -1,10 +1,14 @@
 package main
 
 import (
+	"context"
 	"fmt"
+	"os"
+	"path/filepath"
 	"strings"
 	"time"
 
+	"github.com/pentops/j5/cmd/j5/verifcli"
 	"github.com/pentops/j5/lib/verifshim/bcl"
 	"verifharness/vh"
 )
@@ -16,9 +20,31 @@ type fmtObs struct {
 	err error
 }
 
+// fmtPropertyFails checks C09's clauses for one (source, formatted) pair of a source the parser accepts:
+// "" when they hold, else which one fails.
+func fmtPropertyFails(src, out string) string {
+	p1 := guard(5*time.Second, func() bcl.ParseResult { return bcl.ParseFile(src, true) })
+	if p1.Panic != nil || p1.Timeout || p1.Val.ErrKind != "" || p1.Val.TreeNil {
+		return "" // not a source the parser accepts
+	}
+	p2 := guard(5*time.Second, func() bcl.ParseResult { return bcl.ParseFile(out, true) })
+	if p2.Panic != nil || p2.Timeout || p2.Val.ErrKind != "" || p2.Val.TreeNil {
+		return "rejected by the parser"
+	}
+	d1, ok1 := docOf(src)
+	d2, ok2 := docOf(out)
+	if !ok1 || !ok2 || strings.Join(d1, "\n") != strings.Join(d2, "\n") {
+		return "denotes a different document"
+	}
+	if again, err := bcl.FmtPublic(out); err != nil || again != out {
+		return "formatting twice changes the text"
+	}
+	return ""
+}
+
 func runC09(cfg *vh.Config) error {
 	res := vh.NewResult("C09", cfg.Seed)
-	res.Rule = "inputs: formatter templates (escapable and non-ASCII string contents, regexes with slashes, nested arrays, inline/block comments, multi-line descriptions, blank-line and indentation patterns), the repository's .j5s/.bcl/fixture files, grammar-generated files (1/5 mutated), windows of repository files, random <=3-token sequences; plus direct ties of tokenSource and reformatDescription on random literals; non-trivial = distinct input the parser accepts with at least one statement"
+	res.Rule = "inputs: formatter templates (escapable and non-ASCII string contents, regexes with slashes, nested arrays, inline/block comments, multi-line descriptions, blank-line and indentation patterns), the repository's .j5s/.bcl/fixture files, grammar-generated files (1/5 mutated), windows of repository files, random <=3-token sequences; plus the write path (j5 j5s fmt --file/--dir --write on temporary files that are longer, shorter and equal to the formatted text); plus direct ties of tokenSource and reformatDescription on random literals; non-trivial = distinct input the parser accepts with at least one statement"
 	cf := &vh.CasesFile{
 		Header: "From Coq Require Import String List NArith ZArith.\nFrom J5V.model Require Import BclFmtCorr.",
 		Type:   "fmtcase",
@@ -92,6 +118,101 @@ func runC09(cfg *vh.Config) error {
 			}
 		}
 		caseNo++
+	}
+
+	// ---- the write path: `j5 j5s fmt --write` (runJ5sFmt) on real files. What is left on disk must be exactly
+	// the formatter's output (shorter, longer or equal to what was there), and a second run must leave it alone.
+	{
+		tmp, err := os.MkdirTemp("", "c09write")
+		if err != nil {
+			return err
+		}
+		defer os.RemoveAll(tmp)
+		type wcase struct{ src, want, stream string }
+		var wcases []wcase
+		budget := cfg.Scale(150, 3000)
+		for _, in := range inputs {
+			if len(wcases) >= budget {
+				break
+			}
+			// the command formats with internal/bcl.Fmt (a wrapper of parser.Fmt): that is what must end up in the file
+			if o, err := bcl.FmtPublic(in.src); err == nil {
+				wcases = append(wcases, wcase{in.src, o, in.stream})
+				if po, perr := bcl.Fmt(in.src); perr != nil || po != o {
+					// the wrapper changes the text: the property must hold for what it returns
+					res.Count("wrapper_differs")
+					if why := fmtPropertyFails(in.src, o); why != "" {
+						res.Fail(vh.Failure{Case: caseNo, Stream: "write", Sig: "C09 bcl.Fmt (the command's formatter) output: " + why, Clause: "the formatter's output is accepted by the parser and denotes the same document; formatting twice changes nothing", Input: fmt.Sprintf("%q", in.src), Got: fmt.Sprintf("%q", o)})
+					}
+				}
+				// the same file with trailing blank lines and spaces: the formatted text is shorter than the file
+				padded := in.src + "\n\n   \n\t\n\n"
+				if o2, err := bcl.FmtPublic(padded); err == nil && len(wcases) < budget {
+					wcases = append(wcases, wcase{padded, o2, in.stream})
+				}
+			}
+		}
+		readBack := func(p string) string { b, _ := os.ReadFile(p); return string(b) }
+		for i, wc := range wcases {
+			res.Count("write_file")
+			p := filepath.Join(tmp, fmt.Sprintf("f%d.j5s", i))
+			if err := os.WriteFile(p, []byte(wc.src), 0644); err != nil {
+				return err
+			}
+			inS := fmt.Sprintf("fmt --file --write on %q", wc.src)
+			wg := guard(10*time.Second, func() error { return verifcli.J5sFmt(context.Background(), "", p, true) })
+			switch {
+			case wg.Panic != nil || wg.Timeout:
+				res.Fail(vh.Failure{Case: caseNo, Stream: "write", Sig: "C09 fmt --write panic: " + panicClass(wg.Panic), Clause: "fmt --write replaces the file content with the formatter's output", Input: inS, Got: fmt.Sprint(wg.Panic)})
+			case wg.Val != nil:
+				res.Fail(vh.Failure{Case: caseNo, Stream: "write", Sig: "C09 fmt --write fails on a file the formatter accepts", Clause: "fmt --write replaces the file content with the formatter's output", Input: inS, Got: wg.Val.Error()})
+			default:
+				if got := readBack(p); got != wc.want {
+					res.Fail(vh.Failure{Case: caseNo, Stream: "write", Sig: "C09 fmt --write leaves a file that is not the formatter's output", Clause: "the formatter's output (as fmt --write leaves it in the file) is accepted by the parser and denotes the same document", Input: inS, Got: fmt.Sprintf("%q", got), Want: fmt.Sprintf("%q", wc.want)})
+				} else {
+					wg2 := guard(10*time.Second, func() error { return verifcli.J5sFmt(context.Background(), "", p, true) })
+					if got2 := readBack(p); wg2.Panic != nil || wg2.Val != nil || got2 != wc.want {
+						res.Fail(vh.Failure{Case: caseNo, Stream: "write", Sig: "C09 a second fmt --write changes the file", Clause: "formatting the output a second time changes nothing", Input: inS, Got: fmt.Sprintf("%q (err %v)", got2, wg2.Val)})
+					}
+				}
+			}
+			_ = os.Remove(p)
+			caseNo++
+		}
+		// --dir --write: every .j5s file below the directory, also in sub-directories; other files untouched
+		nDir := cfg.Scale(8, 120)
+		for k := 0; k < nDir && len(wcases) >= 3; k++ {
+			res.Count("write_dir")
+			d := filepath.Join(tmp, fmt.Sprintf("d%d", k))
+			_ = os.MkdirAll(filepath.Join(d, "sub", "deeper"), 0755)
+			pick := []wcase{wcases[(3*k)%len(wcases)], wcases[(3*k+1)%len(wcases)], wcases[(3*k+2)%len(wcases)]}
+			paths := []string{filepath.Join(d, "a.j5s"), filepath.Join(d, "sub", "b.j5s"), filepath.Join(d, "sub", "deeper", "c.j5s")}
+			for i, pc := range pick {
+				_ = os.WriteFile(paths[i], []byte(pc.src), 0644)
+			}
+			other := filepath.Join(d, "sub", "notes.txt")
+			_ = os.WriteFile(other, []byte("x   =   1\n"), 0644)
+			inS := fmt.Sprintf("fmt --dir --write on %q, sub/%q, sub/deeper/%q", pick[0].src, pick[1].src, pick[2].src)
+			wg := guard(20*time.Second, func() error { return verifcli.J5sFmt(context.Background(), d, "", true) })
+			switch {
+			case wg.Panic != nil || wg.Timeout:
+				res.Fail(vh.Failure{Case: caseNo, Stream: "write", Sig: "C09 fmt --write panic: " + panicClass(wg.Panic), Clause: "fmt --write replaces the file content with the formatter's output", Input: inS, Got: fmt.Sprint(wg.Panic)})
+			case wg.Val != nil:
+				res.Fail(vh.Failure{Case: caseNo, Stream: "write", Sig: "C09 fmt --write fails on a file the formatter accepts", Clause: "fmt --write replaces the file content with the formatter's output", Input: inS, Got: wg.Val.Error()})
+			default:
+				for i, pc := range pick {
+					if got := readBack(paths[i]); got != pc.want {
+						res.Fail(vh.Failure{Case: caseNo, Stream: "write", Sig: "C09 fmt --write leaves a file that is not the formatter's output", Clause: "the formatter's output (as fmt --write leaves it in the file) is accepted by the parser and denotes the same document", Input: inS, Got: fmt.Sprintf("file %d: %q", i, got), Want: fmt.Sprintf("%q", pc.want)})
+						break
+					}
+				}
+				if readBack(other) != "x   =   1\n" {
+					res.Fail(vh.Failure{Case: caseNo, Stream: "write", Sig: "C09 fmt --write touched a file that is not a .j5s source", Clause: "fmt --write replaces the file content with the formatter's output", Input: inS, Got: readBack(other)})
+				}
+			}
+			_ = os.RemoveAll(d)
+			caseNo++
+		}
 	}
 
 	// ---- direct ties: tokenSource and reformatDescription
